@@ -9,8 +9,10 @@ import (
 	"github.com/lightninglabs/neutrino"
 )
 
-// With the verif tag the client exposes named yield points. The at-tip
-// filter-header loop can busy-wait (it re-polls the stores without blocking
+// With the verif tag the client exposes named yield points. Two loops of the
+// client can busy-wait: the utxo scanner's batch manager re-runs an empty scan
+// without blocking while a queued request starts above the best block, and the
+// at-tip filter-header loop can busy-wait (it re-polls the stores without blocking
 // when its cached tip hashes disagree but the stores are level); a busy-wait
 // never lets the bubble reach quiescence, so the harness turns each iteration
 // into a short virtual-time sleep. No client lock is held at that point.
@@ -19,17 +21,19 @@ import (
 // down: the first few iterations per instant run undisturbed.
 func init() {
 	neutrino.VerifYield = func(point string) {
-		if point != "cfhandler:at-tip" {
-			return
-		}
 		now := time.Now()
 		yieldMu.Lock()
-		if now.Equal(yieldLast) {
-			yieldCount++
-		} else {
-			yieldLast, yieldCount = now, 0
+		st := yieldState[point]
+		if st == nil {
+			st = &yieldPoint{}
+			yieldState[point] = st
 		}
-		spin := yieldCount >= 3
+		if now.Equal(st.last) {
+			st.count++
+		} else {
+			st.last, st.count = now, 0
+		}
+		spin := st.count >= 3
 		yieldMu.Unlock()
 		if spin {
 			time.Sleep(250 * time.Millisecond)
@@ -37,13 +41,17 @@ func init() {
 	}
 	resetYield = func() {
 		yieldMu.Lock()
-		yieldLast, yieldCount = time.Time{}, 0
+		yieldState = map[string]*yieldPoint{}
 		yieldMu.Unlock()
 	}
 }
 
+type yieldPoint struct {
+	last  time.Time
+	count int
+}
+
 var (
 	yieldMu    sync.Mutex
-	yieldLast  time.Time
-	yieldCount int
+	yieldState = map[string]*yieldPoint{}
 )
